@@ -292,18 +292,26 @@ Sast == <<CAST>>
 Sc1 == <<CC1>>             \* not an XML character: JSON texts only
 Smix == <<CA, CQ, CB, CS>>
 Sub == <<CB, CU>>          \* backslash u
+(* raw characters that are special to some other layer (JsonChars!SpecialChars), NOT in first position of the
+   text: a byte order mark in first / last position of a string, line and paragraph separator, NEL and no-break
+   space at the edges (what str.strip / str.splitlines / a BOM filter would touch), a lone U+FEFF (a key that
+   collapses with the empty key if the character is dropped) *)
+Sbom == <<CBOM, CA, CBOM>>
+Sbom1 == <<CBOM>>
+Slsep == <<CLS, CA, CPS>>
+Snbsp == <<CNBSP, CA, CNEL>>
 
-XStrings == {S0, Sa, Sq, Sb, Sbn, Sbnl, Ss, Snl, Sdel, Sast, Smix, Sub, VHiL, VBmp, VTrunc}
+XStrings == {S0, Sa, Sq, Sb, Sbn, Sbnl, Ss, Snl, Sdel, Sast, Smix, Sub, VHiL, VBmp, VTrunc, Sbom, Sbom1, Slsep, Snbsp}
 XNumbers == {XNum("dbl", 1, Sym), XNum("dbl", 2, Sym), XNum("dbl", 6, Sym), XNum("int", 0, 0), XNum("int", -1, 0), XNum("int", 100, 0), XNum("dec", 5, -1), XNum("dec", 314159, -5),
              XNum("dbl", 1, 2), XNum("dbl", 1, -7), XNum("dbl", 314159, -5), XNum("dbl", 5, -1),
              XNum("dbl", 1, 20), XNum("dbl", 1, -10), XNum("dec", 25, -1), XNum("dec", 1, -3)}
 XAtoms0 == {XStr(s) : s \in XStrings} \cup XNumbers \cup {XBool(TRUE), XBool(FALSE), XEmpty}
 XAtoms1 == {XStr(Sa), XStr(Sbn), XBool(TRUE), XEmpty, XNum("int", -1, 0), XNum("dec", 314159, -5), XNum("dbl", 1, 2)}
            \cup (IF Universe = "thorough" THEN {XStr(Sast), XStr(Sq), XBool(FALSE), XNum("dbl", 1, -7), XNum("dec", 5, -1)} ELSE {})
-XKeys == {S0, Sa, Sq, Sbn, Sbnl, Ss, VHi} \cup (IF Universe = "thorough" THEN {Sb, Snl, Sdel, Sast, Smix} ELSE {})
+XKeys == {S0, Sa, Sq, Sbn, Sbnl, Ss, VHi, Sbom, Snbsp} \cup (IF Universe = "thorough" THEN {Sb, Snl, Sdel, Sast, Smix} ELSE {})
 (* pairs of DIFFERENT keys of which one is what the other would be if it were unescaped once more *)
 LookAlikePairs == {<<Sbn, Snl>>, <<<<CA, CB, CN>>, <<CA, CNL>>>>, <<VBmp, <<HexUpper(10)>>>>, <<<<CB, CS>>, Ss>>, <<<<CB, CB>>, Sb>>}
-XKeyPairs == {<<Sa, Sq>>, <<Sbn, Sbnl>>, <<S0, Ss>>, <<Sa, Sbn>>} \cup LookAlikePairs
+XKeyPairs == {<<Sa, Sq>>, <<Sbn, Sbnl>>, <<S0, Ss>>, <<Sa, Sbn>>, <<S0, Sbom1>>, <<Sa, Sbom>>} \cup LookAlikePairs
              \cup (IF Universe = "thorough" THEN {<<Sb, Sbn>>, <<Snl, Sbnl>>, <<Sdel, Sast>>, <<Sa, Smix>>, <<Sq, Ss>>} ELSE {})
 Map1(k, x) == XMap([j \in {k} |-> x])
 Map2(kp, x, y) == XMap([j \in {kp[1], kp[2]} |-> IF j = kp[1] THEN x ELSE y])
@@ -334,11 +342,12 @@ TNumAtoms == {SNum(i, Sym, "plain") : i \in SymNumbers} \cup {SNum(1, 2, sp) : s
 TAtoms0 == TStrAtoms \cup TNumAtoms \cup {SNull, SBool(TRUE), SBool(FALSE)}
 TAtoms1 == {SStr(Esc(Sa, "U")), SStr(Esc(Snl, "py")), SNum(1, 2, "Exp"), SNull, SStr(Esc(Sc1, "U")), SStr(Esc(Sast, "l"))}
 TAtoms2 == {SNum(1, 0, "plain"), SStr(Sa), SNull}
-TKeys == {Esc(s, pol) : s \in {Sa, Sq, Sbn, Sbnl, Ss, Sc1, S0, VHiL, VLo, VBmp, VRev, VNoHex} \cup (IF Universe = "thorough" THEN {Sb, Snl, Sdel, Sast} ELSE {}),
+TKeys == {Esc(s, pol) : s \in {Sa, Sq, Sbn, Sbnl, Ss, Sc1, S0, VHiL, VLo, VBmp, VRev, VNoHex, Sbom, Slsep} \cup (IF Universe = "thorough" THEN {Sb, Snl, Sdel, Sast} ELSE {}),
                         pol \in {"min", "canon", "U"}}
 TKeyPairs == {<<Esc(kp[1], pol), Esc(kp[2], pol)>> : kp \in LookAlikePairs, pol \in {"min", "canon"}} \cup {<<Esc(Sa, "min"), Esc(Sa, "U")>>, <<Esc(Sa, "U"), Esc(Sa, "min")>>, <<Esc(Sa, "min"), Esc(Sa, "min")>>,
               <<Esc(Sbn, "min"), Esc(Sbnl, "min")>>, <<Esc(Ss, "min"), Esc(Ss, "canon")>>, <<Esc(Sa, "min"), Esc(Sq, "min")>>,
-              <<Esc(Sq, "min"), Esc(Sq, "U")>>, <<Esc(Sbn, "min"), Esc(Sbn, "l")>>, <<Esc(Sb, "min"), Esc(Sbn, "min")>>}
+              <<Esc(Sq, "min"), Esc(Sq, "U")>>, <<Esc(Sbn, "min"), Esc(Sbn, "l")>>, <<Esc(Sb, "min"), Esc(Sbn, "min")>>,
+              <<Sbom1, S0>>, <<Sbom, Sa>>, <<Sbom1, Esc(Sbom1, "U")>>, <<Snbsp, Sa>>}
 TD1 == {SArr(<<>>), SOb(<<>>)}
        \cup {SArr(<<x>>) : x \in TAtoms0}
        \cup {SArr(<<x, y>>) : x \in TAtoms1, y \in TAtoms1}
